@@ -8,7 +8,9 @@ for n in sorted(os.listdir(os.path.join(V, "seeded"))):
         continue
     r = json.load(open(p))
     caught = [c for c, v in r["checks"].items() if v["rc"] == 1]
-    first = r["checks"][caught[0]]["first"] if caught else "NOT REPORTED"
+    meta = json.load(open(os.path.join(V, "seeded", n, "meta.json")))
+    first = r["checks"][caught[0]]["first"] if caught else \
+        "not counted: outside the property as stated (see text)" if meta.get("status") == "outside-property" else "NOT REPORTED"
     rows.append("| %s | %s | %s | %s |" % (n, r["property"], ",".join(caught) or "-", first[:110].replace("|", "/")))
 head = "| seeded change | property | caught by | first verdict |"
 t = open(os.path.join(V, "DESIGN.md")).read()
